@@ -390,11 +390,23 @@ func filterAdd(in *Value, param *Value) (*Value, *Error) {
 		if in.IsFloat() || param.IsFloat() {
 			return AsValue(in.Float() + param.Float()), nil
 		}
-		return AsValue(in.Integer() + param.Integer()), nil
+		return AsValue(addInts(in.Integer(), param.Integer())), nil
 	}
 	// If in/param is not a number, we're relying on the
 	// Value's String() conversion and just add them both together
 	return AsValue(in.String() + param.String()), nil
+}
+
+// addInts is a + b for every sum an int can hold; beyond that it saturates, like the
+// conversions to int do (Value.Integer), instead of wrapping around to the other sign.
+func addInts(a, b int) int {
+	if b > 0 && a > math.MaxInt-b {
+		return math.MaxInt
+	}
+	if b < 0 && a < math.MinInt-b {
+		return math.MinInt
+	}
+	return a + b
 }
 
 func filterAddslashes(in *Value, param *Value) (*Value, *Error) {
